@@ -135,6 +135,15 @@ Theorem C13_split_statements_valid s ys oe x : split_M s = (ys, oe) -> In x ys -
 Proof. exact (split_M_stmts s ys oe x). Qed.
 Print Assumptions C13_split_statements_valid.
 
+(* comments: for EVERY input string no statement handed to parse_equation contains a "#" (the comment text never reaches
+   the term lexer, the template or the generated code), and a line without "#" is passed on unchanged *)
+Theorem C13_statements_have_no_comment s y : In y (fst (split_M s)) -> has_char "#" y = false.
+Proof. exact (statements_have_no_comment s y). Qed.
+Print Assumptions C13_statements_have_no_comment.
+Theorem C13_comment_free_line_unchanged line : has_char "#" line = false -> strip_comments line = line.
+Proof. exact (strip_comments_id line). Qed.
+Print Assumptions C13_comment_free_line_unchanged.
+
 (* the hypotheses of C13_no_statement_discarded hold on an ordinary script (comment, blank line, fenced block,
    bracketed continuation) *)
 Theorem C13_no_statement_discarded_satisfiable :
